@@ -23,11 +23,12 @@ for i in 1 2; do
   fails=$(grep -E '^(--- FAIL|FAIL)' $src/verify-suite$i.log | tr '\n' ' ')
   echo "suite run $i with change: ${fails:-all ok}" >> $out
 done
+RUN=$(grep -oE "^func Test[A-Za-z0-9_]*" "$demo" | awk '{print $2}' | paste -sd"|")
 cp "$demo" $place/zz_seed_demo_test.go
 TAGS=""; grep -q "go:build verif" "$demo" && TAGS="-tags verif"
 head -1 "$demo" | grep -q -- "-race" && TAGS="$TAGS -race"
-(cd $place && go test $TAGS -vet=off -count=1 -timeout 10m -run 'Demo|Seed|C[0-9][0-9]' . > $src/verify-demo-with.log 2>&1); echo "demo with change: exit $?" >> $out
+(cd $place && go test $TAGS -vet=off -count=1 -timeout 10m -run "^($RUN)\$" . > $src/verify-demo-with.log 2>&1); echo "demo with change: exit $?" >> $out
 git checkout -q -- . 
-(cd $place && go test $TAGS -vet=off -count=1 -timeout 10m -run 'Demo|Seed|C[0-9][0-9]' . > $src/verify-demo-without.log 2>&1); echo "demo without change: exit $?" >> $out
+(cd $place && go test $TAGS -vet=off -count=1 -timeout 10m -run "^($RUN)\$" . > $src/verify-demo-without.log 2>&1); echo "demo without change: exit $?" >> $out
 cd /; git -C /repo worktree remove --force $wt
 cat $out
